@@ -196,12 +196,17 @@ def run(R):
             dt, nch = rng.choice(["uint32", "uint64"]), rng.choice([1, 2])
         else:
             dt, nch = rng.choice(DT), rng.choice([1, 2, 3, 4])
+        # stratified: the first sessions of every run mix a lossless and a lossy scale, in both orders
+        # (s0 raw + s1 jpeg, s0 jpeg + s1 raw), one and three channels
+        forced_mix = si < 8
+        if forced_mix:
+            enc, dt, nch = ("raw" if si % 2 == 0 else "jpeg"), "uint8", (1 if si % 4 < 2 else 3)
         scales = []
         for k in range(2):
             size = [rng.randrange(1, 14) for _ in range(3)]
             cs = [rng.choice([1, 2, 3, 4, 8]) for _ in range(3)]
             enc_k = enc
-            if k == 1 and rng.random() < 0.5:
+            if k == 1 and (rng.random() < 0.5 or forced_mix):
                 # another encoding for the second scale (allowed by the format)
                 if dt == "uint8" and nch in (1, 3):
                     enc_k = "jpeg" if enc == "raw" else "raw"
@@ -252,6 +257,15 @@ def run(R):
                     hi = np.iinfo(dt).max
                     pool = [0, 1, hi, hi - 1, rng.randrange(hi), rng.randrange(hi), 2 ** 31 % (hi + 1)]
                     arr = np.array([rng.choice(pool) for _ in range(int(np.prod(shape)))], dtype=dt).reshape(shape)
+                    if rng.random() < 0.3:
+                        # segment-like content: one label, or two labels split along one axis (uniform blocks)
+                        arr = np.full(shape, rng.choice(pool), dtype=dt)
+                        ax = rng.randrange(1, 4)
+                        if shape[ax] > 1 and rng.random() < 0.5:
+                            idx = [slice(None)] * 4
+                            idx[ax] = slice(shape[ax] // 2, None)
+                            arr[tuple(idx)] = rng.choice(pool)
+                        R.count("seq:segment-like-array")
                 # the array handed to write_chunk may be big-endian or of a narrower type that casts
                 # safely; what must come back is its value in the dataset's data type
                 # first bytes that look like a compressed or otherwise "recognisable" stream (raw encoding stores
@@ -459,6 +473,7 @@ def _handles_stream(R, rng, quick):
         objs, arrays, last = [], [], {}
         valid_info = [precomputed_ok(x) for x in infos]
         ended = False
+        follow = None
         for step in range(n_ops):
             if step < len(plan):
                 op = plan[step]
@@ -541,9 +556,56 @@ def _handles_stream(R, rng, quick):
                             impl_out.append(["ok", -1])
                         else:
                             impl_out.append(["ok", tok])
+                            follow = (h, c, got[1])
                     else:
                         impl_out.append(got)
             case_ops.append([str(x) for x in op])
+            if follow is not None:
+                # the SAME position is read again through the same object, after the caller has scribbled over
+                # the array it was given (it owns it) and, half of the time, after ANOTHER object on the same
+                # dataset has overwritten the chunk: the second read must show what is stored now
+                fh, fc, farr = follow
+                follow = None
+                R.count("handles:reread")
+                if farr.flags.writeable:
+                    farr[...] = farr + 1 if farr.dtype.kind == "f" else farr ^ 1
+                    R.count("handles:reread-after-scribble")
+                inf = infos[handles[fh]]
+                peers = [j for j in range(len(objs)) if j != fh and handles[j] == handles[fh]]
+                if peers and rng.random() < 0.5:
+                    h2 = rng.choice(peers)
+                    shape = (inf["num_channels"], max(fc[5] - fc[4], 1), max(fc[3] - fc[2], 1), max(fc[1] - fc[0], 1))
+                    if inf["data_type"] == "float32":
+                        arr2 = np.full(shape, rng.uniform(-9, 9), dtype="float32")
+                    else:
+                        arr2 = np.full(shape, rng.randrange(int(np.iinfo(inf["data_type"]).max)), dtype=inf["data_type"])
+                    arrays.append(arr2)
+                    tok2 = len(arrays) - 1
+                    got_w = outcome_of(lambda: objs[h2].write_chunk(arr2, "s0", fc))
+                    wire.append([Atom("w"), h2, tok2, b"s0", list(fc)])
+                    if got_w[0] == "ok":
+                        last[fc] = tok2
+                        impl_out.append(["ok", "stored"])
+                    else:
+                        impl_out.append(got_w)
+                    case_ops.append(["w", str(h2), "(overwrite by a peer)"])
+                    R.count("handles:reread-after-peer-overwrite")
+                got_r = outcome_of(lambda: objs[fh].read_chunk("s0", fc))
+                wire.append([Atom("r"), fh, b"s0", list(fc)])
+                case_ops.append(["r", str(fh), "(same position again)"])
+                if got_r[0] == "ok":
+                    tokr = last.get(fc)
+                    if tokr is None or got_r[1].shape != arrays[tokr].shape or \
+                            got_r[1].tobytes() != arrays[tokr].astype(got_r[1].dtype).tobytes():
+                        R.violation("a second read of the same position through the same PrecomputedIO object does "
+                                    "not return what is stored now (the caller modified the first array, or another "
+                                    "object overwrote the chunk in between)",
+                                    {"infos": infos, "ops": list(case_ops), "coords": list(fc)}, {})
+                        impl_out.append(["ok", -1])
+                    else:
+                        impl_out.append(["ok", tokr])
+                else:
+                    impl_out.append(got_r)
             if ended:
                 break
         rep = R.model.call("pio_handles", [[wire_info(i, x) for i, x in enumerate(infos)], wire])
